@@ -542,6 +542,10 @@ func genInput(r *rng.R) (Input, []string) {
 	if len(in.Use) == 0 && r.Chance(1, 3) {
 		in.Route = 1
 	}
+	if len(in.Use) > 0 && r.Bool() && pmsOrderAccepted() {
+		in.UseOrder = 1
+		cl = append(cl, "use-pms-order")
+	}
 	return in, cl
 }
 
